@@ -18,3 +18,40 @@ pub fn set_forced_seed(seed: Option<i32>) {
 pub(crate) fn forced_seed() -> Option<i32> {
     FORCED_SEED.with(|s| s.get())
 }
+
+thread_local! {
+    static FUEL: Cell<Option<u64>> = const { Cell::new(None) };
+    static STEPS: Cell<u64> = const { Cell::new(0) };
+}
+
+/// Message of the error `Story::step` returns once the fuel is used up.
+pub const FUEL_EXHAUSTED: &str = "VERIF-FUEL";
+
+/// Give the stories on this thread a budget of interpreter steps (`None` = unlimited).
+pub fn set_fuel(fuel: Option<u64>) {
+    FUEL.with(|f| f.set(fuel));
+}
+
+/// Steps left, if a budget is set.
+pub fn fuel_left() -> Option<u64> {
+    FUEL.with(|f| f.get())
+}
+
+/// Total number of interpreter steps executed on this thread.
+pub fn step_count() -> u64 {
+    STEPS.with(|s| s.get())
+}
+
+pub(crate) fn burn_fuel() -> Result<(), crate::story_error::StoryError> {
+    STEPS.with(|s| s.set(s.get().wrapping_add(1)));
+    FUEL.with(|f| match f.get() {
+        Some(0) => Err(crate::story_error::StoryError::InvalidStoryState(
+            FUEL_EXHAUSTED.to_owned(),
+        )),
+        Some(n) => {
+            f.set(Some(n - 1));
+            Ok(())
+        }
+        None => Ok(()),
+    })
+}
